@@ -20,6 +20,7 @@ pub const MN: u8 = 4;
 pub const X: u8 = 5;
 pub const K: u8 = 6;
 pub const P2: u8 = 7; // phase switch (first) / start of the next closure (second)
+pub const CD: u8 = 8; // commit the same opening again
 
 pub fn to_program(h: &[u8]) -> Program {
     let mut p = Program::default();
@@ -27,6 +28,7 @@ pub fn to_program(h: &[u8]) -> Program {
     for c in h {
         let op = match *c {
             C => Op::C,
+            CD => Op::CD,
             A => Op::A,
             AN => Op::AN,
             M => Op::M,
@@ -56,6 +58,7 @@ pub fn from_program(p: &Program) -> Option<Vec<u8>> {
     let code = |o: &Op| -> Option<u8> {
         Some(match o {
             Op::C => C,
+            Op::CD => CD,
             Op::A => A,
             Op::AN => AN,
             Op::M => M,
@@ -226,7 +229,7 @@ fn enabled(h: &[u8], max1: usize, max2: usize, two_phase: bool, out: &mut Vec<u8
     let ph = phases(h);
     if ph == 0 {
         if h.len() < max1 {
-            out.extend_from_slice(&[C, A, AN, M, MN, X, K]);
+            out.extend_from_slice(&[C, CD, A, AN, M, MN, X, K]);
         }
         if two_phase {
             out.push(P2);
@@ -368,7 +371,7 @@ pub fn abs_step(s: &MState, a: u8) -> MState {
     n.depth += 1;
     n.expect = vec![];
     match a {
-        C => {
+        C | CD => {
             n.expect = vec![format!("Committed({})", n.commits)];
             n.commits += 1;
         }
@@ -418,7 +421,7 @@ impl Model for AllocMerged {
             return;
         }
         if s.phase == 0 {
-            actions.extend_from_slice(&[C, A, AN, M, MN, X, K, P2]);
+            actions.extend_from_slice(&[C, CD, A, AN, M, MN, X, K, P2]);
         } else {
             actions.extend_from_slice(&[A, AN, M, MN, X, K]);
             if s.closures < 2 && *s.hist.last().unwrap() != P2 {
@@ -653,10 +656,10 @@ pub fn main(o: &Opts) -> i32 {
     }
     let mut rep = Report::new("C16", o.tier.name(), o.seed, "model_checking");
     let (d1, t1, t2, dm) = match o.tier {
-        Tier::Quick => (6, 2, 2, 9),
+        Tier::Quick => (5, 2, 2, 9),
         Tier::Thorough => (8, 3, 3, 13),
     };
-    rep.bounds = json!({"alphabet": ["C", "A(Some)", "A(None)", "M(Some)", "M(None)", "X=multiply", "K=constrain", "P2=phase switch / next closure"],
+    rep.bounds = json!({"alphabet": ["C", "Cd (commit the same opening again)", "A(Some)", "A(None)", "M(Some)", "M(None)", "X=multiply", "K=constrain", "P2=phase switch / next closure"],
         "tree_phase1_depth": d1, "tree_two_phase_depth": [t1, t2], "merged_depth": dm});
     rep.curves = CURVES.iter().map(|s| s.to_string()).collect();
     let mut states = 0u64;
